@@ -3,5 +3,8 @@ CONSTANTS
   Versions <- VersionsAll
   MaxFaults = 1
   SourceVersions <- SourceVersionsQuick
-INVARIANTS TypeOK PCovers PExact PFail PSources POneBad POthers PRequired PStrict Emit
+  BatchVersions <- BatchVersionsQuick
+  BatchLens <- BatchLensQuick
+  FullRange = TRUE
+INVARIANTS TypeOK PCovers PExact PFail PSources POneBad POthers PRequired PStrict PInstants PBatchAlone PBatchAsk PBatchSane Emit
 CHECK_DEADLOCK FALSE
